@@ -55,12 +55,16 @@ pub fn k3<S: Src>(s: &mut S) {
     let or = w[0] | w[1] | w[2] | w[3] | w[4];
     let i = (or >> 16) as usize;
     assume!(s, i <= 7936);
-    let flush = (w[0] & w[1] & w[2] & w[3] & w[4] & 0xF000) != 0;
-    let key = ((w[0] & 63) * (w[1] & 63) * (w[2] & 63) * (w[3] & 63) * (w[4] & 63)) as usize;
+    let h = Five::from(w);
+    // the triple as the code itself computes it (k1 pins these three functions to the
+    // order-independent mathematical values on real hands); stating k3 over them keeps it
+    // independent of how the product or the OR is associated
+    let flush = h.is_flush();
+    let key = h.multiply_primes();
+    check!(s, h.or_rank_bits() as usize == i, "C01.k3.or_rank_bits_is_or_of_rank_fields");
     reach!(s, flush, "C01.k3.reach_flush");
     reach!(s, !flush && UNIQUE_5[i] != 0, "C01.k3.reach_unique");
     reach!(s, !flush && UNIQUE_5[i] == 0, "C01.k3.reach_product_search");
-    let h = Five::from(w);
     let got = h.hand_rank_value();
     let want = table_walk(i, flush, key);
     check!(s, got == want, "C01.k3.value_is_table_walk_of_triple");
